@@ -128,6 +128,19 @@ func clientReload(w *World) {
 		}
 		return s
 	}
+	// visitors are part of the configuration too: three stcp visitors, variants differ in the bind port
+	vnames := []string{"va", "vb", "vc"}
+	vport := func(n string, variant int) int { return 6600 + int(n[1]-'a') + 10*variant }
+	genVis := func() cfgSet {
+		s := cfgSet{}
+		for _, n := range vnames {
+			if r.Intn(3) != 0 {
+				s[n] = r.Intn(3)
+			}
+		}
+		return s
+	}
+	curVis := genVis()
 	toJSON := func(s cfgSet) map[string]any {
 		var ps []map[string]any
 		var ks []string
@@ -146,7 +159,30 @@ func clientReload(w *World) {
 		return map[string]any{"serverAddr": "10.0.0.1", "serverPort": 7000, "loginFailExit": false,
 			"auth":      map[string]any{"token": token},
 			"transport": map[string]any{"tcpMux": false, "connectServerLocalIP": "10.0.1.1", "tls": map[string]any{"enable": false}, "poolCount": 1},
-			"proxies":   ps}
+			"proxies":   ps, "visitors": func() []map[string]any {
+				var vs []map[string]any
+				var ks []string
+				for n := range curVis {
+					ks = append(ks, n)
+				}
+				sort.Strings(ks)
+				for _, n := range ks {
+					vs = append(vs, map[string]any{"name": n, "type": "stcp", "serverName": "srv-" + n, "secretKey": "k", "bindAddr": "10.0.1.1", "bindPort": vport(n, curVis[n])})
+				}
+				return vs
+			}()}
+	}
+	// one visitor of the first configuration may be unable to start: somebody else holds its port
+	blockedPort := 0
+	if len(curVis) > 0 && w.KnobBool("visitor_port_taken", 50) {
+		var ks []string
+		for n := range curVis {
+			ks = append(ks, n)
+		}
+		sort.Strings(ks)
+		n := ks[r.Intn(len(ks))]
+		blockedPort = vport(n, curVis[n])
+		w.Net.SquatPort("tcp", fmt.Sprintf("10.0.1.1:%d", blockedPort), true)
 	}
 	cur := genSet()
 	c1 := w.Net.NewNode("frpc1", "10.0.1.1")
@@ -167,6 +203,7 @@ func clientReload(w *World) {
 		time.Sleep(time.Duration([]int{0, 50, 700, 3500, 25000, 70000}[r.Intn(6)]) * time.Millisecond)
 		absorb()
 		next := genSet()
+		curVis = genVis()
 		// what is running and untouched by this reload must see no message at all
 		m.mu.Lock()
 		untouched := map[string][2]int{}
@@ -235,6 +272,36 @@ func clientReload(w *World) {
 		m.mu.Unlock()
 	}
 	checkConverged("after the last reload")
+	// the visitors converge too: exactly the configured ones listen, also when one of them could not start at first
+	if blockedPort != 0 {
+		w.Net.SquatPort("tcp", fmt.Sprintf("10.0.1.1:%d", blockedPort), false)
+		time.Sleep(25 * time.Second) // the visitor manager retries failed visitors every 10 s
+	}
+	w.Check("C19.visitors-converge")
+	wantPorts := map[int]bool{}
+	for n, v := range curVis {
+		wantPorts[vport(n, v)] = true
+	}
+	gotPorts := map[int]bool{}
+	for _, a := range w.Net.ListeningTCP() {
+		if strings.HasPrefix(a, "10.0.1.1:66") {
+			var p int
+			fmt.Sscanf(a[len("10.0.1.1:"):], "%d", &p)
+			gotPorts[p] = true
+		}
+	}
+	for p := range wantPorts {
+		if !gotPorts[p] {
+			viol("converge", "configured-visitor-not-listening", "visitors configured on ports %v, listening on %v (port %d was taken by somebody else until the end); history: %v", sortedInts(wantPorts), sortedInts(gotPorts), blockedPort, history)
+			break
+		}
+	}
+	for p := range gotPorts {
+		if !wantPorts[p] {
+			viol("converge", "removed-visitor-still-listening", "visitors configured on ports %v, listening on %v (port %d was taken by somebody else until the end); history: %v", sortedInts(wantPorts), sortedInts(gotPorts), blockedPort, history)
+			break
+		}
+	}
 	m.mu.Lock()
 	m.mu.Unlock()
 	// a stopped proxy refuses work connections; a running one still serves
